@@ -479,7 +479,7 @@ pub static SPIN_SEEN: std::sync::atomic::AtomicBool = std::sync::atomic::AtomicB
 /// logical verdict is possible: a library thread that consumes SPIN_CPU_TICKS of CPU time while the counter stands still.
 fn watch_excluding_p(mut done: impl FnMut() -> bool, zombies: &BTreeSet<u32>, min_samples: u32, min_span: Duration, watchdog: Duration, progress: Option<&dyn Fn() -> u64>) -> Option<Quiescence> {
     use std::collections::BTreeMap;
-    let start = Instant::now();
+    let mut start = Instant::now();
     let mut last_progress: Option<u64> = None;
     let mut cpu_base: BTreeMap<u32, u64> = BTreeMap::new();
     let mut spin_probe = 0u32;
@@ -538,6 +538,9 @@ fn watch_excluding_p(mut done: impl FnMut() -> bool, zombies: &BTreeSet<u32>, mi
                 if last_progress != Some(now) {
                     last_progress = Some(now);
                     cpu_base.clear();
+                    // the wall-clock watchdog measures time WITHOUT observable progress: a backlog of millions of
+                    // entries on a loaded machine takes as long as it takes
+                    start = Instant::now();
                 }
                 for t in &tids {
                     if let Some(c) = procmon::task_cpu_ticks(*t) {
